@@ -29,7 +29,9 @@ def qbytes_mm(activations: torch.Tensor, weights: torch.Tensor, output_scales: t
         mm_dtype = torch.float32
     activations = activations.to(mm_dtype)
     weights = weights.to(mm_dtype)
-    outputs = torch.matmul(activations, weights.t()) * output_scales.t()
+    # The scales are per-tensor or per output feature, i.e. aligned on the last dimension of the outputs
+    # (flatten them to avoid adding a dimension to the outputs of one-dimensional activations)
+    outputs = torch.matmul(activations, weights.t()) * output_scales.flatten()
     return outputs.to(output_scales.dtype)
 
 
@@ -45,7 +47,7 @@ def qbytes_int_mm(activations: torch.Tensor, weights: torch.Tensor, output_scale
     out_data = torch._int_mm(activations, weights).view(output_shape)
     # We must evaluate the output as float32 because the multiplication
     # of the int32 data by the scales might overflow
-    fp32_output = out_data.to(torch.float32) * output_scales.t()
+    fp32_output = out_data.to(torch.float32) * output_scales.flatten()
     return fp32_output.to(output_scales.dtype)
 
 
